@@ -39,7 +39,7 @@ def renumber(node):
         if isinstance(n, tuple):
             if n and n[0] == "in":
                 return ("in", n[1], next(cnt))
-            if n and n[0] == "lit":
+            if n and n[0] in ("lit", "const"):
                 return n
             return tuple(go(x) for x in n)
         return n
@@ -72,7 +72,7 @@ def width_pairs(widths, mixed):
                 yield w1, w2
 
 
-def apply_ops(operand_sets, widths, mixed=True, with_literals=True, families=None):
+def apply_ops(operand_sets, widths, mixed=True, with_literals=True, families=None, const_variants=False):
     """All applications of one operator of the alphabet to operands drawn from `operand_sets`:
     a function type -> list of candidate operand trees of that type.  Yields (family, tree) (not renumbered)."""
 
@@ -230,6 +230,13 @@ def apply_ops(operand_sets, widths, mixed=True, with_literals=True, families=Non
                             yield "boolop", ("bool", op, (a, b))
                         for fn in ("any", "all"):
                             yield "boolop", ("anyall", fn, (a, b))
+        if const_variants:
+            # builtin any()/all() over an iterable mixing run-time values with python int constants
+            for fn in ("any", "all"):
+                for k in (0, 1):
+                    yield "boolop", ("anyall", fn, (L(BIT), lit(k)))
+                    yield "boolop", ("anyall", fn, (lit(k), L(BOOL)))
+                    yield "boolop", ("anyall", fn, (L(BIT), lit(k), L(BIT)))
         for t1 in (BIT, BOOL):
             for a in ops_of(t1):
                 for fn in ("any", "all"):
@@ -289,6 +296,13 @@ def apply_ops(operand_sets, widths, mixed=True, with_literals=True, families=Non
                                 continue  # partial coverage without default: one representative (single key)
                             branches = tuple((kk, v0) for kk in ks)
                             yield "select", ("sel", arg, branches, v0 if use_default else None)
+                            if const_variants and arg[0] == "in" and (ks is dom or ks == dom[:1]):
+                                # typed constants as branch values / default
+                                for cv in vals[1:]:
+                                    brc = tuple((kk, cv if i == len(ks) - 1 else v0) for i, kk in enumerate(ks))
+                                    yield "select", ("sel", arg, brc, v0 if use_default else None)
+                                    if use_default:
+                                        yield "select", ("sel", arg, branches, cv)
                             if V.is_num(t) and with_literals and len(ks) >= 1:
                                 kl = [kk2 for kk2 in (0, 1, (1 << t[1]) - 1) if V.representable(t, kk2)]
                                 br2 = tuple((kk, lit(kl[i % len(kl)]) if i else v0) for i, kk in enumerate(ks))
@@ -320,6 +334,69 @@ def depth1(widths, mixed=True, families=None):
             continue
         seen.add(tree)
         yield fam, tree
+
+
+def const_values(t):
+    """typed constants used as operands: every value for widths <= 2, {0, 1, max} above"""
+    if t == BIT:
+        return (0, 1)
+    if t == BOOL:
+        return (False, True)
+    if t[0] == "enum":
+        return tuple(range(t[1]))
+    if V.is_vec(t):
+        if t[1] <= 2:
+            return tuple(range(1 << t[1]))
+        return (0, 1, (1 << t[1]) - 1)
+    return ()
+
+
+def C(t, v):
+    return ("const", t, v)
+
+
+CONST_FAMILIES = ("arith", "cmp", "eq", "bitwise", "cat", "shift", "boolop", "ifexp", "select")
+
+
+def count_nodes(tree, kind):
+    if not isinstance(tree, tuple) or not tree:
+        return 0
+    if isinstance(tree[0], str):
+        if tree[0] == kind:
+            return 1
+        if tree[0] in ("in", "lit", "const"):
+            return 0
+        return sum(count_nodes(x, kind) for x in tree[1:])
+    return sum(count_nodes(x, kind) for x in tree)
+
+
+def depth1_const(widths, mixed=True, families=None):
+    """depth-1 trees in which typed compile-time constants take the place of operands: every operator of
+    CONST_FAMILIES with a constant in every operand position (binary operators: exactly one constant; operators
+    with three or more operands: one or two), at least one run-time operand"""
+    fams = [f for f in CONST_FAMILIES if families is None or f in families or "const_" + f in families]
+
+    def operand_sets(t):
+        if t[0] == "arr" or t == INT:
+            return [L(t)]
+        return [L(t)] + [C(t, v) for v in const_values(t)]
+
+    seen = set()
+    for fam, tree in apply_ops(operand_sets, list(widths), mixed=mixed, with_literals=False, families=fams,
+                               const_variants=True):
+        nc = count_nodes(tree, "const")
+        if nc == 0 or count_nodes(tree, "in") == 0:
+            continue
+        if fam != "select" and nc > 2:
+            continue
+        if fam == "select" and tree[1][0] != "in":
+            continue  # a constant selector is not an operand position the docs describe (observed: a constant enum
+            # selector emits `with eb select` without declaring the enumeration type)
+        tree = renumber(tree)
+        if not well_typed(tree) or tree in seen:
+            continue
+        seen.add(tree)
+        yield "const_" + fam, tree
 
 
 # inner operators of depth-2 trees: one representative per code path of the emitter (operator text, cast,
@@ -407,6 +484,8 @@ def depth2(widths, families=None):
 
 def _children(n):
     k = n[0]
+    if k in ("in", "lit", "const"):
+        return []
     if k == "bin":
         return [n[2], n[3]]
     if k == "cmp":
@@ -497,6 +576,8 @@ def render(node, leaf):
         return leaf(node[2], node[1])
     if k == "lit":
         return f"({node[1]})" if node[1] < 0 else str(node[1])
+    if k == "const":
+        return const_text(node[1], node[2])
     if k == "bin":
         op = node[1]
         if op == "tdiv":
